@@ -11,4 +11,5 @@ var Scenarios = map[string]func() *Scenario{
 	"C08": C08Scenario,
 	"C09": C09Scenario,
 	"C11": C11Scenario,
+	"C16": C16Scenario,
 }
